@@ -71,3 +71,22 @@ package resolvers
 //@   loop 1
 //@     invariant forall j int :: { edges[j] } 0 <= j && j <= rangeindex ==> allocated(edges[j]) && edges[j].Cursor == old(lazyIdentityEdges[j].Cursor)
 //@     invariant forall j int :: { lazyIdentityEdges[j] } 0 <= j && j < len(lazyIdentityEdges) ==> lazyIdentityEdges[j] != nil && lazyIdentityEdges[j].Cursor == old(lazyIdentityEdges[j].Cursor) && lazyIdentityEdges[j] == old(lazyIdentityEdges[j])
+
+// Queries keep working without an authenticated user (C17: read-only mode): asking for the user identity then
+// answers "none", not an error.
+//@ func repoResolver.UserIdentity
+//@   props C17
+//@   requires ctx != nil && obj != nil
+//@   ensures [anonymous-is-not-an-error] !auth.hasUser(ctx) ==> result == nil && result1 == nil
+
+// With a user attached, a text-carrying mutation hands the requested text to the cache sanitised the documented
+// way: multi-line messages through text.Cleanup (line breaks kept), titles through text.CleanupOneLine.
+//@ func mutationResolver.AddComment
+//@ func mutationResolver.AddCommentAndClose
+//@ func mutationResolver.AddCommentAndReopen
+//@ func mutationResolver.EditComment
+//@   props C17
+//@   check [records-the-requested-text] err == nil ==> cache.lastMessage == text.Cleanup(input.Message)
+//@ func mutationResolver.SetTitle
+//@   props C17
+//@   check [records-the-requested-title] err == nil ==> cache.lastTitle == text.CleanupOneLine(input.Title)
